@@ -838,6 +838,9 @@ def direct(rng, tier, focus=()):
             n += 1
             add(check_octets(bs))
             nontriv.add(bs)
+    for _ in range(100000 if big else 10000):           # 3-octet strings with any first octet
+        n += 1
+        add(check_octets(rmac(rng, 3)))
     # 3. the twelve messages through the whole stack
     for rep in range(6 if big else 2):
         for M in wf_messages(rng, big):
@@ -884,8 +887,16 @@ def _undescM(m):
 def replay(payload):
     f = payload.get('failure')
     if not f:
-        b = payload.get('broken', [{}])
-        f = (b[0].get('minimal_case', {}) or {}).get('desc', {}) if b and isinstance(b[0], dict) else {}
+        f = {}
+        for b in payload.get('broken', []):
+            if isinstance(b, dict) and b.get('minimal_case'):
+                mc = b['minimal_case']
+                f = mc.get('desc') or {}
+                print('correspondence case:', mc.get('coq', '')[:300])
+                print('  implementation:', mc.get('implementation'), ' model:', mc.get('model'))
+                break
+            if isinstance(b, dict):
+                print('broken:', b.get('what'))
     print('replay', f)
     if 'octets' in f and 'header' not in f:
         bs = bytes.fromhex(f['octets'])
